@@ -353,8 +353,39 @@ def rule_range_helper(ctx) -> None:
     c20.guard_decide(ctx, "C06.range-helper", fn, ["x", "start", "end"], lambda e: ("return", e["start"] <= e["x"] <= e["end"]), lo=-1, hi=4)
     # add_record_bit_range / add_record_range on the order types
     v = ctx.own(VER, "Verifier", "add_record_bit_range")
-    t = norm(v.node)
-    ctx.chk.decide("elif not check_range(value, end=(1 << bit_range) - 1):" in t and "if value is None:" in t, "C06.range-helper", v.qual, "ERROR unless 0 <= value <= 2**bit_range - 1", t[:200], "", A.loc(VER, v.node))
+    probs2 = []
+    n2 = 0
+    for bits in (1, 4, 8):
+        for value in (None, -1, 0, 1, (1 << bits) - 1, 1 << bits, (1 << bits) + 5):
+            res = {}
+
+            def hook2(c: ast.Call, ev: Evaluator, res=res) -> bool:
+                if norm(c.func) == "self.add_record":
+                    res["r"] = norm(c.args[1])
+                    return True
+                return False
+
+            def sym2(e: ast.expr):
+                if isinstance(e, ast.Call) and A.call_name(e) == "check_range":
+                    x = holder3["ev"].ev(e.args[0])
+                    end = holder3["ev"].ev(A.arg_of(e, 2, "end")) if A.arg_of(e, 2, "end") is not None else (1 << 32) - 1
+                    start = holder3["ev"].ev(A.arg_of(e, 1, "start")) if A.arg_of(e, 1, "start") is not None else 0
+                    return start <= x <= end
+                if isinstance(e, ast.JoinedStr):
+                    return "text"
+                return None
+            holder3 = {}
+            ev = Evaluator({"value": value, "bit_range": bits, "name": "n", "important": True}, sym=sym2, call_hook=hook2)
+            holder3["ev"] = ev
+            try:
+                ev.run(A.body_of(v.node))
+            except Unsupported as u:
+                raise AnalysisError(f"C06.range-helper: add_record_bit_range left the fragment: {u}")
+            n2 += 1
+            want = "VerifierResult.SUCCEEDED" if (value is not None and 0 <= value <= (1 << bits) - 1) else "VerifierResult.ERROR"
+            if res.get("r") != want:
+                probs2.append(f"value={value} bits={bits}: {res.get('r')}")
+    ctx.chk.decide(not probs2, "C06.range-helper", v.qual, f"ERROR unless 0 <= value <= 2**bit_range - 1 ({n2} evaluated points incl. None)", "; ".join(probs2[:3]), "", A.loc(VER, v.node))
     r = ctx.own(VER, "Verifier", "add_record_range")
 
     def hook(c: ast.Call, ev: Evaluator) -> bool:
@@ -703,14 +734,17 @@ def rule_srk(ctx) -> None:
     for cn in ("SRKRecordBase", "SRKRecordV2"):
         cf = ctx.own(SRK, cn, "create_from_key")
         for kind, a, b in (("PublicKeyRsa", "par_n", "par_e"), ("PublicKeyEcc", "par_x", "par_y")):
-            br = [s for s in ast.walk(cf.node) if isinstance(s, ast.If) and kind in norm(s.test)]
-            if len(br) != 1:
+            # the paths on which the key is of this kind and a record is returned (whatever the branch layout)
+            ps = [q for q in A.gpaths(cf.node) if q.end == "return" and q.assumes(f"isinstance(public_key, {kind})", True)]
+            if not ps:
                 raise AnalysisError(f"C06.srk-tables: {kind} branch of {cf.qual} not found")
-            tb = [c for c in A.calls_in(ast.Module(body=br[0].body, type_ignores=[]), "to_bytes")]
+            pm = ast.Module(body=ps[0].stmts, type_ignores=[])
+            tb = [c for c in A.calls_in(pm, "to_bytes")]
             sig = [(norm(c.func.value), norm(A.arg_of(c, 0, "length")), norm(A.arg_of(c, 1, "byteorder"))) for c in tb]
             want = [(a, "cls.KEY_SIZES[key_size][0]", "Endianness.BIG.value"), (b, "cls.KEY_SIZES[key_size][1]", "Endianness.BIG.value")]
-            cp = [k.value for c in A.calls_in(ast.Module(body=br[0].body, type_ignores=[])) for k in c.keywords if k.arg == "crypto_params"]
+            cp = [k.value for c in A.calls_in(pm) for k in c.keywords if k.arg == "crypto_params"]
             order_ok = bool(cp) and isinstance(cp[0], ast.BinOp) and norm(cp[0].left.func.value) == a and norm(cp[0].right.func.value) == b if cp and isinstance(cp[0], ast.BinOp) and isinstance(cp[0].left, ast.Call) and isinstance(cp[0].right, ast.Call) else False
+            br = [ps[0].stmts[-1]]
             if cn == "SRKRecordV2" and not tb:
                 continue
             chk.decide(sig == want and order_ok, "C06.srk-tables", f"{cf.qual} {kind}", f"crypto params = {a} || {b}, big endian, at the table's fixed sizes", f"{sig}; order ok {order_ok}", "", A.loc(SRK, br[0]))
